@@ -784,6 +784,11 @@ func (t *T) fail(now bool, msg string) {
 	t.mu.Lock()
 	defer t.mu.Unlock()
 
+	if msg == "" {
+		// an empty failed means "no failure signaled": t.Error() and t.Errorf("") must not look like that
+		msg = "test failed"
+	}
+
 	t.failed = stopTest(msg)
 	if now {
 		panic(t.failed)
